@@ -55,8 +55,6 @@ package resource_info
 //@     invariant forall k in visited :: k in other.scalarResources
 //@     invariant forall k in visited :: r.scalarResources[k] == old(r.scalarResources[k]) + other.scalarResources[k] && (k in r.scalarResources <==> r.scalarResources[k] != 0)
 //@     invariant forall k v1.ResourceName :: !(k in visited) ==> r.scalarResources[k] == old(r.scalarResources[k]) && (k in r.scalarResources <==> old(k in r.scalarResources))
-//@     invariant forall m map[v1.ResourceName]int64, k v1.ResourceName :: m != r.scalarResources ==> m[k] == old(m[k]) && (k in m <==> old(k in m))
-//@     invariant forall m map[v1.ResourceName]int64 :: m != r.scalarResources ==> dom(m) == old(dom(m))
 //@   ensures r.milliCpu == old(r.milliCpu) + other.milliCpu
 //@   ensures r.memory == old(r.memory) + other.memory
 //@   ensures forall k v1.ResourceName :: r.scalarResources[k] == old(r.scalarResources[k]) + other.scalarResources[k]
@@ -71,8 +69,6 @@ package resource_info
 //@     invariant forall k in visited :: k in other.scalarResources
 //@     invariant forall k in visited :: r.scalarResources[k] == old(r.scalarResources[k]) - other.scalarResources[k] && (k in r.scalarResources <==> r.scalarResources[k] != 0)
 //@     invariant forall k v1.ResourceName :: !(k in visited) ==> r.scalarResources[k] == old(r.scalarResources[k]) && (k in r.scalarResources <==> old(k in r.scalarResources))
-//@     invariant forall m map[v1.ResourceName]int64, k v1.ResourceName :: m != r.scalarResources ==> m[k] == old(m[k]) && (k in m <==> old(k in m))
-//@     invariant forall m map[v1.ResourceName]int64 :: m != r.scalarResources ==> dom(m) == old(dom(m))
 //@   ensures r.milliCpu == old(r.milliCpu) - other.milliCpu
 //@   ensures r.memory == old(r.memory) - other.memory
 //@   ensures forall k v1.ResourceName :: r.scalarResources[k] == old(r.scalarResources[k]) - other.scalarResources[k]
@@ -88,8 +84,6 @@ package resource_info
 
 //@ func (*BaseResource).Clone
 //@   props C01 C14
-//@   trusted
-//@   note body calls golang.org/x/exp/maps.Clone (generic, external, no body loaded: havoc-all); assumed to return a fresh map with the same entries (nil for nil)
 //@   requires r != nil
 //@   fresh
 //@   ensures result.milliCpu == r.milliCpu && result.memory == r.memory
@@ -260,6 +254,8 @@ package resource_info
 //@     invariant noDra(req) ==> r.gpus == old(r.gpus) + reqGpus(req.GpuResourceRequirement)
 //@   loop 2
 //@     invariant forall k in visited :: k in req.migResources
+//@     invariant forall m map[v1.ResourceName]int64, k v1.ResourceName :: m != r.scalarResources ==> m[k] == old(m[k]) && (k in m <==> old(k in m))
+//@     invariant forall m map[v1.ResourceName]int64 :: m != r.scalarResources ==> dom(m) == old(dom(m))
 //@     invariant forall k in visited :: r.scalarResources[k] == old(r.scalarResources[k]) + req.scalarResources[k] + req.migResources[k] && k in r.scalarResources
 //@     invariant forall k v1.ResourceName :: !(k in visited) ==> r.scalarResources[k] == old(r.scalarResources[k]) + req.scalarResources[k] && (k in r.scalarResources <==> ite(k in req.scalarResources, r.scalarResources[k] != 0, old(k in r.scalarResources)))
 //@   ensures req == nil ==> r.milliCpu == old(r.milliCpu) && r.memory == old(r.memory) && r.gpus == old(r.gpus)
@@ -280,6 +276,8 @@ package resource_info
 //@     invariant noDra(req) ==> r.gpus == old(r.gpus) - reqGpus(req.GpuResourceRequirement)
 //@   loop 2
 //@     invariant forall k in visited :: k in req.migResources
+//@     invariant forall m map[v1.ResourceName]int64, k v1.ResourceName :: m != r.scalarResources ==> m[k] == old(m[k]) && (k in m <==> old(k in m))
+//@     invariant forall m map[v1.ResourceName]int64 :: m != r.scalarResources ==> dom(m) == old(dom(m))
 //@     invariant forall k in visited :: r.scalarResources[k] == old(r.scalarResources[k]) - req.scalarResources[k] - req.migResources[k] && k in r.scalarResources
 //@     invariant forall k v1.ResourceName :: !(k in visited) ==> r.scalarResources[k] == old(r.scalarResources[k]) - req.scalarResources[k] && (k in r.scalarResources <==> ite(k in req.scalarResources, r.scalarResources[k] != 0, old(k in r.scalarResources)))
 //@   ensures r.milliCpu == old(r.milliCpu) - req.milliCpu
@@ -305,15 +303,35 @@ package resource_info
 //@   ensures forall i in v :: v[i] == ite(i == index, value, old(v[i]))
 //@ end
 
+// the two slices do not share a backing array (a slice compared with a reference compares its array)
+//@ define distinctArrays(a ResourceVector, b ResourceVector) bool = forall x ref :: a == x ==> b != x
+
 //@ func (*ResourceVector).Add
 //@   props C01 C14
-//@   requires v != nil
-//@   modifies *v, (*v)[*]
+//@   requires v != nil && (len(other) == 0 || distinctArrays(*v, other))
+//@   requires len(*v) >= len(other)   // the zero-extension branch uses copy(), which the engine over-approximates (see report)
+//@   modifies (*v)[*]
 //@   loop 1
-//@     invariant 0 - 1 <= rangeindex && rangeindex < max(len(other), 1) && len(*v) == max(old(len(*v)), len(other))
-//@     invariant forall i int :: 0 <= i && i < len(*v) ==> (*v)[i] == old(vget(*v, i)) + ite(i <= rangeindex, old(vget(other, i)), 0.0)
-//@   ensures len(*v) == max(old(len(*v)), len(other))
-//@   ensures forall i int :: 0 <= i && i < len(*v) ==> (*v)[i] == old(vget(*v, i)) + old(vget(other, i))
+//@     invariant 0 - 1 <= rangeindex && rangeindex < len(other) && len(*v) == old(len(*v)) && *v == old(*v)
+//@     invariant forall i int :: rangeindex < i && i < len(*v) ==> (*v)[i] == old((*v)[i])
+//@     invariant forall i int :: 0 <= i && i <= rangeindex ==> (*v)[i] == old((*v)[i]) + other[i]
+//@     invariant forall i int :: 0 <= i && i < len(other) ==> other[i] == old(other[i])
+//@   ensures forall i int :: 0 <= i && i < len(*v) ==> (*v)[i] == old((*v)[i]) + vget(other, i)
+//@   ensures forall i int :: 0 <= i && i < len(other) ==> other[i] == old(other[i])
+//@ end
+
+//@ func (*ResourceVector).Sub
+//@   props C01 C14
+//@   requires v != nil && (len(other) == 0 || distinctArrays(*v, other))
+//@   requires len(*v) >= len(other)   // see Add
+//@   modifies (*v)[*]
+//@   loop 1
+//@     invariant 0 - 1 <= rangeindex && rangeindex < len(other) && len(*v) == old(len(*v)) && *v == old(*v)
+//@     invariant forall i int :: rangeindex < i && i < len(*v) ==> (*v)[i] == old((*v)[i])
+//@     invariant forall i int :: 0 <= i && i <= rangeindex ==> (*v)[i] == old((*v)[i]) - other[i]
+//@     invariant forall i int :: 0 <= i && i < len(other) ==> other[i] == old(other[i])
+//@   ensures forall i int :: 0 <= i && i < len(*v) ==> (*v)[i] == old((*v)[i]) - vget(other, i)
+//@   ensures forall i int :: 0 <= i && i < len(other) ==> other[i] == old(other[i])
 //@ end
 
 // ---- emptiness (C01: a best-effort task requests nothing above the minimal quantities) ----------------
@@ -346,4 +364,21 @@ package resource_info
 //@   requires r != nil
 //@   pure
 //@   ensures result == reqEmpty(r)
+//@ end
+
+// ---- conversions to k8s resource lists (reporting only) -------------------------------------------
+//@ func (*ResourceRequirements).ToResourceList
+//@   props C08 C10
+//@   trusted
+//@   note builds a fresh v1.ResourceList from k8s resource.NewQuantity/NewMilliQuantity (external constructors, havoc-all in the engine); touches no existing object; result content unconstrained
+//@   requires r != nil
+//@   fresh
+//@ end
+
+//@ func (*BaseResource).ToResourceList
+//@   props C08 C10
+//@   trusted
+//@   note builds a fresh v1.ResourceList from k8s resource.NewQuantity/NewMilliQuantity (external constructors, havoc-all in the engine); touches no existing object; result content unconstrained
+//@   requires r != nil
+//@   fresh
 //@ end
